@@ -41,7 +41,8 @@ TABLE = {
         note="RA+relaxed view model without load-buffering/out-of-thin-air, <=7 messages per location, 2 threads per scenario; plain accesses "
              "placed as transcribed in the scenario programs; the control skeleton is bound by the C01/C02/C07 replays run inside this check; "
              "lock-based components: the lock-grain threaded replays of queue, thread pool and scheduler (thread mode) run inside this check "
-             "(a moved/removed/added lock operation or a guarded state change after the unlock diverges); publisher: see C16",
+             "(a moved/removed/added lock operation or a guarded state change after the unlock diverges), and so does the lock-grain replay of "
+             "PublisherConc.tla (one publishing/closing/kicking thread against subscriber threads using blocking, polled and coroutine next())",
         design_ref="6/C03, 3.2, 4.5, 9.1, 9.8",
         technique="explicit TLA+ weak-memory model checked by TLC, memory orders extracted from the executing code (conformance binding by schedule replay)"),
     "C04": dict(
@@ -248,8 +249,15 @@ TABLE = {
              "a really blocked thread and next_ready() are used for the whole-call forms, and all internal registration state is compared "
              "after every step. Four genuine defects of the pinned tree (close race, get_value_lk bookkeeping, blocking conversion, copy of a "
              "parked subscriber) were derived as TLC counterexamples, confirmed on the real code and fixed in /repo; their unrepaired variants "
-             "are kept behind Fix* constants as rejected self-tests.",
-        note="bounds: <=3 subscribers, <=4 subscribe events, <=6 values, batches <=3; thread interleavings at critical-section grain on the spec "
+             "are kept behind Fix* constants as rejected self-tests. The same critical sections are additionally wrapped into a thread-structured "
+             "model (PublisherConc.tla: a publisher thread with critical section 1, the wake-up loop outside the lock and the tail critical "
+             "section; one thread per subscriber using blocking next(), next_ready() or a coroutine that the publisher resumes on its own "
+             "thread), model-checked against all C16 invariants, and replayed on real threads under the controlled scheduler at lock grain "
+             "(virtual std::mutex, sync_awaiter wait controlled). After every critical section the internal registration state, every "
+             "thread's pending operation and every subscriber's received values are compared, and every step outside a critical section "
+             "must leave the mutex-guarded state unchanged.",
+        note="threaded replay: 1 publisher + <=3 subscriber threads, <=2 values (<=4 with one subscriber), replay path sets capped (quick 2x1200, "
+             "thorough 5x9000 paths), lock grain (atomics not scheduling points); bounds: <=3 subscribers, <=4 subscribe events, <=6 values, batches <=3; thread interleavings at critical-section grain on the spec "
              "(std::mutex trusted), the blocking form replayed as a whole call in a real thread; publish after close, use after the first EOS, "
              "copying a kicked/dropped/mid-call subscriber excluded; TCB: TLC, dot-graph path cover, the replayer's probe classes",
         design_ref="6/C16, 3.11, 9.6"),
@@ -283,7 +291,13 @@ TABLE = {
              "reusable_storage_mtsafe, counting storage) x converter behaviour, including reuse of helper and storage for a second and third "
              "operation. Every edge of the sequential and one-resolver graphs (thorough: also of the two-resolver graph) is replayed on the "
              "real adapters, sequential timings on one real thread and concurrent timings on real threads under the controlled scheduler; "
-             "after every step the real objects are compared with the specification's state.",
+             "after every step the real objects are compared with the specification's state. The concurrent timings are additionally checked "
+             "and replayed at the finest grain (each atomic operation and the plain code after it as separate steps), with the invariant "
+             "that a published helper node already has its resume function / handle set. The sequential timings are replayed both from "
+             "ordinary code and from inside a running coroutine, where callback_await's helper is queued and starts later; there the "
+             "awaitable's constructor argument is passed as a temporary, an lvalue and a moved named object, each tracked so that "
+             "destruction or a move poisons it, under the invariant that the awaitable is built from values equal to the ones passed. "
+             "Specification variants describing arming after the publishing CAS and arguments held by reference are rejected self-tests.",
         note="bounds: <=3 operations per scenario, <=2 competing resolvers, one subscriber, int/void payloads, quick caps the two-resolver graph at 6 "
              "paths per combination; TCB: TLC, vsched token passing with scheduling points on the awaited future's slot/owner word and fence only, "
              "SC interleavings (weak CAS as strong), adapters called from a plain thread (no active coroutine queue), non-throwing user callbacks",
@@ -314,7 +328,11 @@ TABLE = {
              "checks), rotate through the equivalent public entry points, and include the value resolver going through "
              "promise::bind(args...)(). Stepping a synchronous generator in every access style is the allocation column of the Generator "
              "replay (c13.alloc_replay); storage policies / suspend-point inline capacity are taken from the C19 / C06 replays where "
-             "those expose an allocation replay.",
+             "those expose an allocation replay. Frames under a non-heap storage policy: a slice of Storage.tla (stack_storage learning its "
+             "frame size, reusable_storage and reusable_storage_mtsafe over every order of up to four frames of three sizes incl. BIG-small-BIG; "
+             "WarmNoAlloc/CompleteNoAlloc checked by TLC) is replayed edge-complete with the storage's operator new/delete count, live heap "
+             "blocks and heap-vs-stack placement of each frame as the compared observation, for frame sizes that are and are not multiples "
+             "of 16, for plain with_allocator coroutines and for the library's callback_await_alloc path.",
         note="value types int and a 64-byte trivially destructible object; per-thread one-time construction of the thread-local ready queue "
              "excluded; more than three waiters released at once is outside the property's clause",
         design_ref="6/C20"),
